@@ -21,48 +21,7 @@ func runC17(c *Ctx) {
 	R := c.R
 	_, s := c.Std()
 
-	R.Rule("R-err-passthrough", "E4 value flow", "writeError passes an *SMTPError's three fields to the reply unmodified, any other error with the caller's generic code and err.Error(); callback errors reach writeError with 451/4.0.0", 7)
-	if f := c.A.Func("(*Conn).writeError"); f != nil {
-		n := 0
-		for _, site := range s.Find(f, "reply") {
-			cc := callCommon(site)
-			n++
-			ff := c.F.Analyze(f)
-			if ff.At(site)["assert[*SMTPError](param3)#1 == true"] {
-				ok := describe(cc.Args[1]) == "SMTPError.Code" && describe(cc.Args[2]) == "SMTPError.EnhancedCode" && describeVarargs(cc.Args[3]) == "SMTPError.Message"
-				// the struct read must be the asserted error
-				ok = ok && assertedBase(cc.Args[1]) == "assert[*SMTPError](param3)#0"
-				R.Ob(c.siteKey(site, "SMTPError fields passed through"), c.P.InstrPos(site), ok, "reply built from "+describe(cc.Args[1])+", "+describe(cc.Args[2])+", "+describeVarargs(cc.Args[3]))
-			} else {
-				ok := describe(cc.Args[1]) == "param1" && describe(cc.Args[2]) == "param2" && describeVarargs(cc.Args[3]) == "invoke:error.Error"
-				R.Ob(c.siteKey(site, "generic code with the error text"), c.P.InstrPos(site), ok, "reply built from "+describe(cc.Args[1])+", "+describe(cc.Args[2])+", "+describeVarargs(cc.Args[3]))
-				c.obUnreach("generic reply", site, `assert[*SMTPError](param3)#1 == true`)
-			}
-		}
-		R.Ob("(*Conn).writeError/two reply shapes", c.P.Pos(f.Pos()), n == 2, fmt.Sprintf("%d replies in writeError", n))
-	}
-	for _, x := range []struct{ cb, errDesc string }{
-		{lNewSession, "invoke:Backend.NewSession#1"}, {lMail, "invoke:Session.Mail"}, {lRcpt, "invoke:Session.Rcpt"},
-	} {
-		for _, site := range c.Sites(x.cb) {
-			f := site.Parent()
-			found := false
-			for _, we := range s.Find(f, "call:(*Conn).writeError") {
-				cc := callCommon(we)
-				if describe(cc.Args[3]) != x.errDesc {
-					continue
-				}
-				found = true
-				code, _ := constInt(cc.Args[1])
-				kind, class := enhancedArg(cc.Args[2])
-				R.Ob(c.siteKey(we, "generic envelope error is 451 4.x"), c.P.InstrPos(we), code == 451 && kind == "const" && class == 4, fmt.Sprintf("generic code %d class %d", code, class))
-				c.obUnreach("error reply", we, x.errDesc+" == nil")
-			}
-			R.Ob(c.siteKey(site, "callback error reaches writeError"), c.P.InstrPos(site), found, "the error of "+x.cb+" is not reported through writeError")
-			site := site
-			c.obFollowH("callback error is reported", f, func(in ssa.Instruction) bool { return in == site }, []string{"call:(*Conn).writeError"}, x.errDesc+" != nil")
-		}
-	}
+	ruleErrPassthrough(c)
 
 	R.Rule("R-enh-default", "E3+E4", "writeResponse replaces an unset enhanced code by {class,0,0} for classes 2, 4, 5 and by none otherwise", 3)
 	if f := c.A.Func("(*Conn).writeResponse"); f != nil {
@@ -221,4 +180,54 @@ func assertedBase(v ssa.Value) string {
 		return ""
 	}
 	return describe(base)
+}
+
+// ruleErrPassthrough is shared by C17 and C04 (a reply built from a backend SMTPError must keep code and
+// enhanced code together, otherwise their classes can disagree).
+func ruleErrPassthrough(c *Ctx) {
+	R := c.R
+	_, s := c.Std()
+	R.Rule("R-err-passthrough", "E4 value flow", "writeError passes an *SMTPError's three fields to the reply unmodified, any other error with the caller's generic code and err.Error(); callback errors reach writeError with 451/4.0.0", 7)
+	if f := c.A.Func("(*Conn).writeError"); f != nil {
+		n := 0
+		for _, site := range s.Find(f, "reply") {
+			cc := callCommon(site)
+			n++
+			ff := c.F.Analyze(f)
+			if ff.At(site)["assert[*SMTPError](param3)#1 == true"] {
+				ok := describe(cc.Args[1]) == "SMTPError.Code" && describe(cc.Args[2]) == "SMTPError.EnhancedCode" && describeVarargs(cc.Args[3]) == "SMTPError.Message"
+				// the struct read must be the asserted error
+				ok = ok && assertedBase(cc.Args[1]) == "assert[*SMTPError](param3)#0"
+				R.Ob(c.siteKey(site, "SMTPError fields passed through"), c.P.InstrPos(site), ok, "reply built from "+describe(cc.Args[1])+", "+describe(cc.Args[2])+", "+describeVarargs(cc.Args[3]))
+			} else {
+				ok := describe(cc.Args[1]) == "param1" && describe(cc.Args[2]) == "param2" && describeVarargs(cc.Args[3]) == "invoke:error.Error"
+				R.Ob(c.siteKey(site, "generic code with the error text"), c.P.InstrPos(site), ok, "reply built from "+describe(cc.Args[1])+", "+describe(cc.Args[2])+", "+describeVarargs(cc.Args[3]))
+				c.obUnreach("generic reply", site, `assert[*SMTPError](param3)#1 == true`)
+			}
+		}
+		R.Ob("(*Conn).writeError/two reply shapes", c.P.Pos(f.Pos()), n == 2, fmt.Sprintf("%d replies in writeError", n))
+	}
+	for _, x := range []struct{ cb, errDesc string }{
+		{lNewSession, "invoke:Backend.NewSession#1"}, {lMail, "invoke:Session.Mail"}, {lRcpt, "invoke:Session.Rcpt"},
+	} {
+		for _, site := range c.Sites(x.cb) {
+			f := site.Parent()
+			found := false
+			for _, we := range s.Find(f, "call:(*Conn).writeError") {
+				cc := callCommon(we)
+				if describe(cc.Args[3]) != x.errDesc {
+					continue
+				}
+				found = true
+				code, _ := constInt(cc.Args[1])
+				kind, class := enhancedArg(cc.Args[2])
+				R.Ob(c.siteKey(we, "generic envelope error is 451 4.x"), c.P.InstrPos(we), code == 451 && kind == "const" && class == 4, fmt.Sprintf("generic code %d class %d", code, class))
+				c.obUnreach("error reply", we, x.errDesc+" == nil")
+			}
+			R.Ob(c.siteKey(site, "callback error reaches writeError"), c.P.InstrPos(site), found, "the error of "+x.cb+" is not reported through writeError")
+			site := site
+			c.obFollowH("callback error is reported", f, func(in ssa.Instruction) bool { return in == site }, []string{"call:(*Conn).writeError"}, x.errDesc+" != nil")
+		}
+	}
+
 }
